@@ -580,6 +580,18 @@ def _in_gap_tol_class(case, out):
     return isinstance(obj, int) and isinstance(opt, int) and obj > 10 ** 6 and 0 < obj - opt < 1e-6 * obj
 
 
+KNOWN_FLOAT_NOISE = "C17-float-noise-large-objective"
+
+
+def _in_float_noise_class(case, out):
+    """Status OPTIMAL, objective > 2^23 (there one ulp of an LP value reaches the code's absolute eps = 1e-9) and above the minimum by at
+    most one roll per pattern of the plan (each `ceil(x - eps)` can round an integer-valued x up once)."""
+    if out.get("status") != "OPTIMAL" or (case.get("form") or {}).get("eps") is not None:
+        return False
+    obj, opt = out.get("objective"), case.get("opt")
+    return (isinstance(obj, int) and isinstance(opt, int) and obj > 2 ** 23 and 0 < obj - opt <= max(1, len(out.get("plan") or [])))
+
+
 def _nontrivial(case, out):
     """Non-trivial: the run generated at least one column beyond the initial ones, or ended FEASIBLE above the LP bound,
     or (bp) entered the tree."""
@@ -594,7 +606,12 @@ def run(ctx: Ctx):
     ctx.rule = ("cutting-stock instances with 1..4 piece types, width 2..12, integer sizes 1..width (duplicates, near-divisors), demands 0..6 "
                 "(zeros, all-zero, empty), and custom instances (1..3 rows, explicit set of <= 9 columns with entries 0..3, exact pricing over the set, "
                 "initial columns a subset); both solvers; max_iter in {0,1,2,30,default}, bp max_nodes in {0,1,3,20,200,default}; non-trivial = the run "
-                "priced in >= 1 new column, or ended FEASIBLE, or (bp) explored the tree; distinct = canonical JSON of the input")
+                "priced in >= 1 new column, or ended FEASIBLE, or (bp) explored the tree; distinct = canonical JSON of the input.  Round-2 families "
+                "(harness/props/C17_hard.py): duplicate columns in initial_columns; argument forms (tuple / range / tuple of lists, integer-valued float "
+                "sizes, fresh equal ints >= 257 and fresh tuples from the pricing call-back); demands up to 2^53-1 and 17..65 piece types / width up to "
+                "2049 / 17..33 rows with the optimum known by construction (zero-waste patterns: area bound attained); sweeps max_iter 0..40,999..1001, "
+                "max_nodes 0..12,9999..10001; eps, gap_tol, progress call-backs; call sequences on shared argument objects; event-directed search "
+                "over solve_bp's internals")
     ctx.proof_step(["C17"])
     if (COQ / "Props" / "C17_deep.v").exists():
         ctx.proof_step(["C17"], props_file="Props/C17_deep.v")
@@ -613,6 +630,9 @@ def run(ctx: Ctx):
         "quantifier: integer sizes only (non-multiples of 0.01 break knapsack_pricing's x100 scaling: outside C17, not generated)",
         "custom mode: columns are non-negative integer vectors (set covering); _solve_custom does not verify demands, a column with a negative "
         "entry can yield an OPTIMAL plan that misses a demand (corpus/C17/custom_negative_column_outside_quantifier.json) - outside the quantifier",
+        "magnitudes: the master LP holds demands as floats and its tolerances are absolute (eps = 1e-9), so cases with a demand above 2*10^6 are "
+        "judged by the by-construction oracle only (not replayed in the exact-arithmetic model); demands stay <= 2^53-1; a feasible cutting-stock "
+        "instance answered INFEASIBLE (seen for demands ~ 10^15: phase 1 residue > eps) is not a usable status, counted in 'infeasible_though_feasible'",
         "a run that exceeds the 20 s guard is skipped and counted (histogram 'hang'): termination / speed is not part of C17",
         "solve_cg custom mode with initial columns that cannot cover the demands raises OverflowError (ceil(inf)); tolerated, counted",
     ]
@@ -637,6 +657,8 @@ def run(ctx: Ctx):
         if out.get("fail") == "hang":
             ctx.count("hang", tag)
             continue
+        if case["kind"] == "cs" and out.get("status") == "INFEASIBLE" and case.get("opt") is not None:
+            ctx.count("infeasible_though_feasible", f"max demand ~1e{len(str(max(case['demands']))) - 1}")
         if "status" in out and out["status"] in ("OPTIMAL", "FEASIBLE") and case["opt"] is not None:
             ctx.count("gap " + tag, f"{out['status']}+{out['objective'] - case['opt'] if isinstance(out['objective'], int) else '?'}")
         if bad and _in_gap_tol_class(case, out):
@@ -645,6 +667,14 @@ def run(ctx: Ctx):
                 ctx.count("known_gap_tol", tag)
                 ctx.known_hit(KNOWN_GAP_TOL, "solve_bp labels a plan one roll above the minimum OPTIMAL when the objective exceeds 1/gap_tol = 10^6 "
                               f"(relative gap test), e.g. {_strip_case(case)} -> {out['objective']} rolls, minimum {case['opt']}")
+                continue
+        if bad and _in_float_noise_class(case, out):
+            fixed = any(f.get("id") == KNOWN_FLOAT_NOISE and f.get("status") == "fixed" for f in ctx.known)
+            if not fixed:
+                ctx.count("known_float_noise", tag)
+                ctx.known_hit(KNOWN_FLOAT_NOISE, "OPTIMAL with a plan a few rolls above the minimum when the objective exceeds 2^23 (float tableau, absolute "
+                              f"eps = 1e-9: ceil(x - eps) cannot tell an integer x from x + ulp), e.g. {_strip_case(case)} -> {out['objective']} rolls, "
+                              f"minimum {case['opt']}")
                 continue
         if bad:
             small = shrink(case)
